@@ -720,6 +720,7 @@ func (p *Process) setStateAndRun(state string, runnable func() error) error {
 }
 
 func (p *Process) onStateChange(state string) {
+	verifState(p, state)
 	switch state {
 	case types.ProcessStateSkipped:
 		p.setExitCode(1)
